@@ -159,7 +159,7 @@ func gen(seed uint64, tier string, o *hx.Out) {
 	for _, s := range []struct {
 		name string
 		f    func()
-	}{{"AS", g.asCases}, {"AC", g.acCases}, {"AM", g.amCases}, {"AN", g.anCases}, {"PA", g.paCases}, {"PD", g.pdCases}, {"AS/AC round 6", g.round6Cases}, {"round 9 GM", g.round9GM}, {"round 9 TLS", g.round9TLS}, {"AH", g.ahCases}, {"round 12", g.round12Cases}} {
+	}{{"AS", g.asCases}, {"AC", g.acCases}, {"AM", g.amCases}, {"AN", g.anCases}, {"PA", g.paCases}, {"PD", g.pdCases}, {"AS/AC round 6", g.round6Cases}, {"round 9 GM", g.round9GM}, {"round 9 TLS", g.round9TLS}, {"AH", g.ahCases}, {"round 12", g.round12Cases}, {"AH resume", g.resumeCases}} {
 		t0, n0 := time.Now(), g.id
 		s.f()
 		g.flush()
